@@ -181,8 +181,9 @@ func genC03(seed uint64, tier string) *Plan {
 			// several buckets per flush: the commit's window between deciding a
 			// bucket's position and writing the buffer then spans the encoding of
 			// the other buckets, including their file roll-overs
-			for len(p.Keys) < 2 {
-				p.Keys = append(p.Keys, GenKeys(r, 1, false)...)
+			if len(p.Keys) < 2 {
+				// one call, so that the set stays prefix-free (short keys)
+				p.Keys = GenKeys(r, 2+r.Intn(3), p.Cfg.ShortKeys)
 			}
 			vs := 1000
 			p.Ops = genSeqOps(r, 25+r.Intn(40), len(p.Keys), opMix{put: 60, get: 3, remove: 15, flush: 4, reput: 2}, false, &vs)
